@@ -123,9 +123,17 @@ def rule_weightnorm(ctx):
     yield ob(R, f, "chord.weighted_accuracy:degenerate-zero", len(zeros) >= 2 and all(lit(z.term) == 0 for z in zeros), "all-zero weights, no comparable entry and zero comparable weight return 0 (%d exits)" % len(zeros))
     # the degenerate exits test *exact* zero (a tolerance such as np.isclose would break invariance under rescaling the weights)
     exact = True
+    def scale_free(c, p):
+        # x == 0 / not (x != 0) / not mask.any() / mask-count == 0: tests that do not change when all weights are rescaled
+        if c.op == "cmp" and c.a[0] in ("==", "!=") and (tm.is_const(c.a[1], 0) or tm.is_const(c.a[2], 0)):
+            return (c.a[0] == "==") == bool(p)
+        if c.op == "call" and call_name(c) in ("np.any", "builtins.any") and not p:
+            return True
+        return False
+
     for z in zeros:
         c, p = symeval.pc_conds(z.pc)[-1]
-        exact = exact and p and c.op == "cmp" and c.a[0] == "==" and (tm.is_const(c.a[1], 0) or tm.is_const(c.a[2], 0))
+        exact = exact and scale_free(c, p)
     yield ob(R, f, "chord.weighted_accuracy:exact-zero-tests", exact, "each degenerate exit is guarded by an exact `== 0` test (scale-free)")
 
 
